@@ -12,7 +12,7 @@ Theorem C31_id_roundtrip :
   forall n, 0 < n -> n < 2 ^ 64 ->
     exists s, encode n = Some s /\ decode s = Some n /\ length s = 16%nat
               /\ forallb is_lower_hex s = true.
-Proof. exact id_roundtrip. Qed.
+Proof. exact id_roundtrip_fixed. Qed.
 Print Assumptions C31_id_roundtrip.
 
 (** The zero ID has no encoding. *)
@@ -20,43 +20,38 @@ Theorem C31_zero_invalid : encode 0 = None.
 Proof. exact encode_zero. Qed.
 Print Assumptions C31_zero_invalid.
 
-(** FULL STATEMENT (second half of the first sentence of the property):
-      forall s n, decode s = Some n <-> (n < 2^64 /\ encode n = Some s)
-    i.e. "every string that is not the encoding of a valid ID is rejected".
-    The faithful mirror REFUTES it: Decode goes through strconv.ParseUint(…, 16, 64),
-    which accepts upper-case hex digits. *)
-Theorem C31_decode_rejects_others_refuted :
-  exists s n, decode s = Some n /\ encode n <> Some s.
-Proof. exact decode_uppercase_witness. Qed.
-Print Assumptions C31_decode_rejects_others_refuted.
+(** FULL STATEMENT (second half of the first sentence of the property): every string (any
+    bytes, any length) that is not the encoding of a valid ID is rejected, and every
+    encoding is accepted with its own value.  Holds for the repaired Decode (guard against
+    'A'..'F' before strconv.ParseUint; finding id-decode-uppercase-hex, fixed). *)
+Theorem C31_decode_rejects_others :
+  forall s n, decode s = Some n <-> (n < 2 ^ 64 /\ encode n = Some s).
+Proof. exact decode_exact. Qed.
+Print Assumptions C31_decode_rejects_others.
 
-(** Strongest true weakening: Decode accepts exactly the 16-character hex strings (either
-    case) of non-zero values, and the value's encoding is the lower-cased input; every
-    other string (any byte values, any length) is rejected. *)
-Theorem C31_decode_rejects_others_partial :
-  forall s n, decode s = Some n <->
-    (n < 2 ^ 64 /\ length s = 16%nat /\ forallb is_hex s = true
-     /\ encode n = Some (map to_lower_hex s)).
-Proof. exact decode_iff. Qed.
-Print Assumptions C31_decode_rejects_others_partial.
+(** Why the guard is needed: the ParseUint part alone ([decode_pu], the code before the
+    repair) accepts exactly the 16 hex digits of either case, e.g. "000000000000000A". *)
+Theorem C31_parseuint_part_accepts_either_case :
+  (forall s n, decode_pu s = Some n <->
+     (n < 2 ^ 64 /\ length s = 16%nat /\ forallb is_hex s = true
+      /\ encode n = Some (map to_lower_hex s))) /\
+  (exists s n, decode_pu s = Some n /\ encode n <> Some s).
+Proof. split; [exact decode_iff | exact decode_uppercase_witness]. Qed.
+Print Assumptions C31_parseuint_part_accepts_either_case.
 
-(** On inputs without the letters 'A'..'F' the full statement holds. *)
-Theorem C31_decode_exact_without_uppercase :
-  forall s n, forallb (fun c => negb ((65 <=? c) && (c <=? 70))) s = true ->
-    (decode s = Some n <-> (n < 2 ^ 64 /\ encode n = Some s)).
-Proof. exact decode_lowercase_exact. Qed.
-Print Assumptions C31_decode_exact_without_uppercase.
-
-(** A decoded ID is never zero; wrong lengths and non-hex characters are rejected. *)
+(** A decoded ID is never zero; wrong lengths, non-hex characters and upper-case hex
+    digits are rejected. *)
 Theorem C31_decode_rejects :
   (forall s n, decode s = Some n -> n <> 0) /\
   (forall s, length s <> 16%nat -> decode s = None) /\
   (forall s c, In c s -> is_hex c = false -> decode s = None) /\
-  decode (repeat 48 16) = None.
+  decode (repeat 48 16) = None /\
+  decode [48;48;48;48;48;48;48;48;48;48;48;48;48;48;48;65] = None.
 Proof.
-  split; [intros s n H; apply decode_sound in H; tauto|].
-  split; [exact decode_rejects_length|].
-  split; [exact decode_rejects_nonhex | exact decode_rejects_zero].
+  split; [intros s n H; apply decode_sub, decode_sound in H; tauto|].
+  split; [intros s H; apply decode_none_of_pu, decode_rejects_length, H|].
+  split; [intros s c H1 H2; eapply decode_none_of_pu, decode_rejects_nonhex; eauto|].
+  split; reflexivity.
 Qed.
 Print Assumptions C31_decode_rejects.
 
